@@ -600,6 +600,37 @@ def m_order_probe(p: dict, r: random.Random, routine_only: bool = False) -> dict
     return {"where": b["where"], "variant": variant}
 
 
+def m_label_only_routine(p: dict, r: random.Random, routine_only: bool = False) -> dict | None:
+    """a routine made of calls of macros whose expansion holds labels only (strip_last_label crashes on the pinned tree),
+    and near misses that compile: a label or an operation written in the routine itself, a macro with a `return`"""
+    lm = {"name": fresh("lonly"), "params": [], "body": [{"t": "label", "name": fresh("ll")} for _ in range(r.choice([1, 1, 2]))]}
+    p.setdefault("macros", []).append(lm)
+    callee = lm
+    variant = "direct"
+    v = r.random()
+    if v < 0.3:
+        outer = {"name": fresh("lonly_outer"), "params": [], "body": [call_of(r, lm, 0)] + ([{"t": "label", "name": fresh("ll")}] if r.random() < 0.5 else [])}
+        p["macros"].append(outer)
+        callee = outer
+        variant = "nested"
+    body: list[dict] = [call_of(r, callee, 0) for _ in range(r.choice([1, 1, 2]))]
+    w = r.random()
+    if w < 0.15:
+        body.append({"t": "label", "name": fresh("own")})
+        variant += "+own_label(compiles)"
+    elif w < 0.3:
+        body.insert(r.randint(0, len(body)), _plain(r))
+        variant += "+own_op(compiles)"
+    elif w < 0.4:
+        lm["body"].append({"t": "ctrl", "k": "return"})
+        variant += "+macro_return(compiles)"
+    if p["routines"] and p["routines"][0]["kind"] == "coro":
+        p["routines"].append({"kind": "coro", "id": len(p["routines"]), "name": fresh("CORO_L"), "body": body})
+    else:
+        p["routines"].append({"kind": "def", "id": max([x["id"] for x in p["routines"]] + [-1]) + 1, "body": body})
+    return {"where": f"r{len(p['routines']) - 1}", "variant": variant}
+
+
 # shapes named by the property text
 MUTATORS: dict[str, Callable[..., dict | None]] = {
     "break_outside_case": m_break_outside,
@@ -621,6 +652,7 @@ EXTRA_MUTATORS: dict[str, Callable[..., dict | None]] = {
     "string_case_in_ordinary_switch": m_string_case_in_switch,
     "inline_context_inside_with": m_inline_ctx_in_with,
     "collect_order_probe": m_order_probe,
+    "routine_of_label_only_macro_calls": m_label_only_routine,
 }
 ALL_MUTATORS = dict(MUTATORS, **EXTRA_MUTATORS)
 
